@@ -36,7 +36,10 @@ def t_start(self):
 def run(ctx):
     fi = ctx.func(CD + 'add_signal')
     r, I = ctx.run(fi, max_depth=1, no_inline=('frame.Frame.add_signal',), expand=False)
-    loops = [e for e in I.events if e.kind == 'loop' and e.owner == fi.short]
+    # (the loop that encloses the per-frame injection: written in add_signal itself or in a helper it hands the body to)
+    inj = [e for e in I.events if e.kind == 'call' and e.data.get('name') == '.add_signal' and e.loops]
+    loops = [e for e in I.events if e.kind == 'loop' and (e.owner == fi.short or (
+        inj and e.data['info']['id'] in [l['id'] for l in inj[0].loops]))]
     ctx.require(loops, 'Cadence.add_signal no longer iterates over its frames')
     ctx.ob('FORMULA', 'the injection visits every frame of the cadence, in order', fi,
            pretty(loops[0].data['info']['iter']) == 'self.frames', {'iterates': pretty(loops[0].data['info']['iter'])},
